@@ -94,7 +94,14 @@ func newEnv(t vkit.TB) *env {
 			return resp, err
 		}
 	}
-	e := &env{w: w, rig: vkit.NewRig(w, vkit.RigConfig{BaseTLS: base, FetchFn: fetchFn}), node: vkit.NewActor("honest"), pathIDs: pathIDs}
+	// every other listener sits on a base listener that bounds its open connections (as
+	// netutil.LimitListener does): a connection the intercepting listener neither hands
+	// out nor closes then costs a slot for good
+	maxOpen := 0
+	if envCounter%2 == 0 {
+		maxOpen = 6
+	}
+	e := &env{w: w, rig: vkit.NewRig(w, vkit.RigConfig{BaseTLS: base, FetchFn: fetchFn, MaxOpen: maxOpen}), node: vkit.NewActor("honest"), pathIDs: pathIDs}
 	if err := w.Enroll(e.node); err != nil {
 		t.Fatalf("enroll: %v", err)
 	}
